@@ -370,7 +370,7 @@ impl Gen<'_> {
             if k.ends_with('/') {
                 continue;
             }
-            // (since 7d30be5 every requested key is reported as deleted: a clean history may name keys that do not exist and,
+            // (since c55c267 every requested key is reported as deleted: a clean history may name keys that do not exist and,
             // in the histories that repeat keys, name a key twice)
             if keys.contains(&k) && !self.f_dup {
                 continue;
@@ -407,7 +407,7 @@ impl Gen<'_> {
             if !self.sim.buckets.contains_key(&sb) {
                 return None;
             }
-            // (since aa68bb7 a copy replaces the side files of the object it replaces by the source's: a clean history may copy
+            // (since 8faafe7 a copy replaces the side files of the object it replaces by the source's: a clean history may copy
             // between objects whatever metadata or recorded checksums they have)
         } else if self_copy && !self.rng.chance(1, 4) {
             return None;
@@ -648,7 +648,7 @@ impl Gen<'_> {
     fn op_mpl(&mut self) -> Option<String> {
         let (i, u) = self.upload()?;
         let (w, b, k) = self.upload_ctx(i);
-        // (since 1d762a7 the backend lists parts in ascending part-number order: a clean history lists uploads with any
+        // (since 764f144 the backend lists parts in ascending part-number order: a clean history lists uploads with any
         // number of parts)
         Some(format!("mpl:{w}:{}:{}:{u}", hs(&b), hs(&k)))
     }
